@@ -54,6 +54,9 @@ const (
 	// modeSlowLink (pedersen, short real phase timer): eager random order, except for three messages
 	// on two links that are delayed by less than a phase each, see slowlink_test.go.
 	modeSlowLink = numModes + 1
+	// modeLateDeal (pedersen, short real phase timer): eager random order, except that one dealer's
+	// deal bundle reaches one node just after that node's own deal deadline, see latePlan.
+	modeLateDeal = numModes + 2
 )
 
 // Re-delivery profiles (overlay on every mode): when clones of already delivered one-way
@@ -92,7 +95,7 @@ type redoItem struct {
 const maxHold = 800 * time.Millisecond
 
 var modeNames = [...]string{"eager-random", "eager-lifo", "batch-shuffle", "batch-reverse", "laggard-sender",
-	"laggard-receiver", "class-priority", "receiver-priority", "sender-priority", "targeted-redelivery", "targeted-concurrent", "fault-hold", "slow-link"}
+	"laggard-receiver", "class-priority", "receiver-priority", "sender-priority", "targeted-redelivery", "targeted-concurrent", "fault-hold", "slow-link", "late-deal"}
 
 type delivery struct {
 	Seq   int64  `json:"seq"`
@@ -130,7 +133,9 @@ type sched struct {
 	p2pDone    map[[2]int]bool // {to, from}: the FROST round-1 p2p share was handled
 	burst      int             // copies per concurrent group at the targeted receiver (0: 1..3 as everywhere)
 	msgDur     time.Duration   // running estimate of one broadcast handler execution (scheduler goroutine only)
-	slow *slowPlan // slow-link mode
+	slow       *slowPlan       // slow-link mode
+	late       *latePlan       // late-deal mode
+	phaseP     time.Duration   // real phase duration of the ceremony (slow-link / late-deal bookkeeping when > 0)
 	// transport-fault mode
 	flt      *faultPlan
 	fltSince time.Time     // C's broadcast first seen held
@@ -165,13 +170,16 @@ type sched struct {
 	fltSigR2     bool        // B's round-2 signature request was seen on the wire
 	fltReleased  string      // why C's broadcast was released
 	// slow-link bookkeeping
-	slowCount     map[[3]int]int
-	slowOrd       map[*fakenet.Envelope]int
-	slowStart     map[[2]int]time.Time // {node, validator} -> first deal bundle of that validator on the wire
-	slowDealSent  time.Time
-	slowDealDone  time.Time
-	slowShareLate bool
-	slowDelayed   int
+	slowCount      map[[3]int]int
+	slowOrd        map[*fakenet.Envelope]int
+	slowStart      map[[2]int]time.Time // {node, validator} -> first deal bundle of that validator on the wire
+	slowEv         map[[3]int]*slowEvt
+	slowPubkeySent map[int]time.Time // node -> its last node_pubkeys broadcast message left
+	slowDealSent   time.Time
+	slowDealDone   time.Time
+	slowShareLate  bool
+	lateOthersDone time.Time
+	slowDelayed    int
 
 	// logical clock over sends and completed deliveries (pedersen pubkey-channel analysis)
 	tick        int64
@@ -192,7 +200,7 @@ func newSched(net *fakenet.Net, ids []peer.ID, rng *rand.Rand, mode int, patienc
 		classes: map[string]int{}, dupProfile: dupProfile, dupBudget: dupBudget, dupAll: dupAll, dupUsed: map[int]int{},
 		classCache: map[*fakenet.Envelope]string{}, redeliv: map[string]int{}, tgtA: -1, msgDone: map[[3]int]bool{}, p2pDone: map[[2]int]bool{}, nNodes: len(ids),
 		fltMsgSends: map[int]int{}, returned: make([]atomic.Bool, len(ids)),
-		slowCount: map[[3]int]int{}, slowOrd: map[*fakenet.Envelope]int{}, slowStart: map[[2]int]time.Time{},
+		slowCount: map[[3]int]int{}, slowOrd: map[*fakenet.Envelope]int{}, slowStart: map[[2]int]time.Time{}, slowEv: map[[3]int]*slowEvt{}, slowPubkeySent: map[int]time.Time{},
 		r1LastSend: map[int]int64{}, r1Sends: map[int]int{}, r2Sends: map[int]int{}, r1Delivered: map[int][]int64{}, r1DupsTo: map[int]int{},
 	}
 	// targeted mode: receiver B and laggard sender C (distinct); A is whoever is fast
@@ -207,8 +215,13 @@ func newSched(net *fakenet.Net, ids []peer.ID, rng *rand.Rand, mode int, patienc
 	net.SetPolicy(func(e *fakenet.Envelope) fakenet.Verdict {
 		now := time.Now()
 		s.born.Store(e, now)
-		if s.slow != nil {
+		if s.phaseP > 0 {
 			s.slowNote(e, now)
+			if classOf(e) == "msg:node_pubkeys" {
+				s.mu.Lock()
+				s.slowPubkeySent[s.idx[e.From]] = now
+				s.mu.Unlock()
+			}
 		}
 		if f := s.flt; f != nil && s.idx[e.From] == f.B {
 			cl := classOf(e)
@@ -370,6 +383,10 @@ func (s *sched) heldBack(e *fakenet.Envelope) bool {
 		at, _, ok := s.slowRelease(e)
 
 		return ok && time.Now().Before(at)
+	case modeLateDeal:
+		at, ok := s.lateRelease(e)
+
+		return ok && time.Now().Before(at)
 	case modeFaultHold:
 		f := s.flt
 		if s.tgtPhase != 0 || f.Round == 0 || s.idx[e.From] != f.C || s.idx[e.To] != f.B {
@@ -491,6 +508,11 @@ func (s *sched) run() {
 					continue // a delayed one-way bundle trips no stream timeout; its release time is fixed
 				}
 			}
+			if s.mode == modeLateDeal {
+				if _, ok := s.lateRelease(e); ok {
+					continue
+				}
+			}
 			if s.mode == modeFaultHold && s.heldBack(e) {
 				continue // no real-time timeout is tripped by holding a one-way message; own cap inside heldBack
 			}
@@ -530,7 +552,7 @@ func (s *sched) run() {
 				elig = append(elig, e)
 			}
 		}
-		if len(elig) == 0 && (s.mode == modeFaultHold || s.mode == modeSlowLink) {
+		if len(elig) == 0 && (s.mode == modeFaultHold || s.mode == modeSlowLink || s.mode == modeLateDeal) {
 			s.idle() // the hold is ended by faultRelease or its cap (heldBack)
 
 			continue
@@ -564,7 +586,7 @@ func (s *sched) run() {
 		}
 
 		switch s.mode {
-		case modeEagerRandom, modeLaggardSender, modeLaggardRecv, modeConcurrentTargeted, modeFaultHold, modeSlowLink:
+		case modeEagerRandom, modeLaggardSender, modeLaggardRecv, modeConcurrentTargeted, modeFaultHold, modeSlowLink, modeLateDeal:
 			s.deliver(elig[s.rng.Intn(len(elig))])
 		case modeRedeliverTargeted:
 			e := elig[s.rng.Intn(len(elig))]
@@ -658,6 +680,29 @@ func (s *sched) idle() {
 func (s *sched) deliver(e *fakenet.Envelope) {
 	if !s.net.Take(e) {
 		return
+	}
+	var slowWhich string
+	var slowSent time.Time
+	if s.slow != nil {
+		if _, w, ok := s.slowRelease(e); ok {
+			slowWhich = w
+			if b, ok := s.born.Load(e); ok {
+				slowSent, _ = b.(time.Time)
+			}
+		}
+	}
+	lateOther := false
+	if s.late != nil {
+		if _, ok := s.lateRelease(e); ok {
+			slowWhich = "deal-XY" // same bookkeeping: sent / handled time of the one special deal
+			if b, ok := s.born.Load(e); ok {
+				slowSent, _ = b.(time.Time)
+			}
+		} else if slowKind(s.class(e)) == "deal" && s.idx[e.From] == s.late.D {
+			s.mu.Lock()
+			lateOther = s.slowOrd[e] == s.late.K
+			s.mu.Unlock()
+		}
 	}
 	s.born.Delete(e)
 	class := s.class(e)
@@ -794,8 +839,15 @@ func (s *sched) deliver(e *fakenet.Envelope) {
 			close(start)
 		}
 	} else {
+		var slowDone func()
+		if s.phaseP > 0 {
+			slowDone = s.slowDelivery(e, class)
+		}
 		go func() {
 			s.net.Deliver(e)
+			if slowDone != nil {
+				slowDone()
+			}
 			if r1 {
 				s.mu.Lock()
 				s.tick++
@@ -807,9 +859,15 @@ func (s *sched) deliver(e *fakenet.Envelope) {
 			s.poke()
 		}()
 	}
-	t := time.NewTimer(s.patience)
+	patience := s.patience
+	if slowWhich == "deal-XY" {
+		patience = 3 * time.Second // its handling time is part of the slow-link guard
+	}
+	t := time.NewTimer(patience)
+	handled := false
 	select {
 	case <-ch:
+		handled = true
 	case <-t.C:
 		s.mu.Lock()
 		s.leftInFlight++
@@ -817,6 +875,25 @@ func (s *sched) deliver(e *fakenet.Envelope) {
 	case <-s.stop:
 	}
 	t.Stop()
+	if slowWhich != "" {
+		s.mu.Lock()
+		s.slowDelayed++
+		switch {
+		case slowWhich == "deal-XY":
+			s.slowDealSent = slowSent
+			if handled {
+				s.slowDealDone = time.Now()
+			}
+		case s.slow != nil && time.Since(slowSent) >= s.slow.P:
+			s.slowShareLate = true
+		}
+		s.mu.Unlock()
+	}
+	if lateOther && handled {
+		s.mu.Lock()
+		s.lateOthersDone = time.Now()
+		s.mu.Unlock()
+	}
 	if isMsg && copies == 0 {
 		select {
 		case <-ch: // handler returned: running estimate of one broadcast handler execution (pacing of the barrier)
@@ -998,6 +1075,7 @@ type schedStats struct {
 	ConcPairs    int            `json:"concurrent_duplicate_pairs"`
 	Barriers     int            `json:"concurrent_groups_lined_up_at_callback"`
 	FaultHeld    string         `json:"fault_hold_released_because,omitempty"`
+	SlowDelayed  int            `json:"slow_link_messages_delayed,omitempty"`
 }
 
 func (s *sched) stats() schedStats {
@@ -1018,7 +1096,7 @@ func (s *sched) stats() schedStats {
 	return schedStats{Mode: modeNames[s.mode], Victim: s.victim, Sent: s.sent.Load(), Delivered: s.done.Load(),
 		Inversions: s.inversions, RoundOverlap: s.roundOverlap, LeftInFlight: s.leftInFlight, AgedOut: s.agedOut, MaxPool: s.maxPool, Classes: cl,
 		DupProfile: dupNames[s.dupProfile], Redeliveries: rd, RedelivTotal: total, TargetB: s.tgtB, TargetC: s.tgtC,
-		TgtCompleted: s.tgtCompleted, TgtAbandoned: s.tgtAbandoned, TgtWhy: s.tgtWhy, ConcGroups: s.concGroups, ConcPairs: s.concPairs, Barriers: s.barriers, FaultHeld: s.fltReleased}
+		TgtCompleted: s.tgtCompleted, TgtAbandoned: s.tgtAbandoned, TgtWhy: s.tgtWhy, ConcGroups: s.concGroups, ConcPairs: s.concPairs, Barriers: s.barriers, FaultHeld: s.fltReleased, SlowDelayed: s.slowDelayed}
 }
 
 // orderHash identifies the schedule: the sequence of (from, to, class) deliveries.
